@@ -46,6 +46,9 @@ void Variables::copy(const Variables &other) {
         if (var_map_ == nullptr)
             var_map_ = new VariableMap;
         *var_map_ = *other.var_map_;
+    } else {
+        //! the source has no variables: a copy must not keep the variables it had before
+        CHECK_DELETE_RESET_OBJ(var_map_);
     }
 }
 
